@@ -125,6 +125,11 @@ type World struct {
 	Times  verify.TimeSet
 	NowNil bool // verify with Options.Now == nil (Times must then be the real current time)
 
+	// CrossIssuerSerials makes each CRL also list the serial numbers of the certificates the OTHER CA issued
+	// (the PCK CRL those of intermediate / signers / root, the root CRL that of the leaf): a serial number means
+	// something only together with its issuer, so an honest quote stays acceptable.
+	CrossIssuerSerials bool
+
 	// Outputs of Build
 	Raw  []byte
 	Resp map[string]Response
@@ -310,13 +315,20 @@ func (w *World) QeIDResponse() Response {
 // BuildCollateral fills Resp with the four endpoints.
 func (w *World) BuildCollateral() {
 	w.Resp = map[string]Response{}
+	pckCrl, rootCrl := w.PckCrl, w.RootCrl
+	if w.CrossIssuerSerials {
+		pckCrl.Revoked = append(append([][]byte{}, pckCrl.Revoked...), w.PKI.Int.X.SerialNumber.Bytes(), w.PKI.TcbSig.X.SerialNumber.Bytes(), w.PKI.QeSig.X.SerialNumber.Bytes(), w.PKI.Root.X.SerialNumber.Bytes())
+		if w.Leaf != nil {
+			rootCrl.Revoked = append(append([][]byte{}, rootCrl.Revoked...), w.Leaf.X.SerialNumber.Bytes())
+		}
+	}
 	w.Resp[TcbInfoURL(w.FmspcHex())] = w.TcbInfoResponse()
 	w.Resp[QeIdentityURL] = w.QeIDResponse()
 	w.Resp[PckCrlURL(w.IssuerCA())] = Response{
 		Header: map[string][]string{HdrPckCrl: {IssuerChainHeader(w.PKI.Int, w.PKI.Root)}},
-		Body:   MakeCRL(w.PKI.Int, w.PKI.Int.Key, w.PckCrl),
+		Body:   MakeCRL(w.PKI.Int, w.PKI.Int.Key, pckCrl),
 	}
-	root := MakeCRL(w.PKI.Root, w.PKI.Root.Key, w.RootCrl)
+	root := MakeCRL(w.PKI.Root, w.PKI.Root.Key, rootCrl)
 	for _, u := range w.PKI.Root.X.CRLDistributionPoints {
 		w.Resp[u] = Response{Body: root}
 	}
